@@ -105,7 +105,7 @@ def gen_cases(rng, tier):
             tag = "decquant+quantfrac"
         cases.append({"ops": ops, "fork": False, "tags": [tag, "mode:" + (m if m != "-" else "dflt:" + d)]})
     # --- the quantity level: Quantity.quantize / round() around the kernels
-    n_ctx = 12 if tier == "thorough" else 3
+    n_ctx = 12 if tier == "thorough" else 6
     ctxs = [_qty.predefined_ctx()] + [_qty.user_ctx(rng, rng.randint(8, 14)) for _ in range(n_ctx)]
     for ctx in ctxs:
         ops = []
